@@ -239,6 +239,15 @@ def mon_c09(sc, controller, outcome):
         dem = demanded_and_sources(sc, controller, strict=True)
         if not any(any(k >= ml for k in t[1:]) for i in dem for t in dem[i]):
             vio.append({"law": "loop error although no demanded sub-step reached the bound", "max_loop": ml, "outcome": outcome})
+    if sc.get("loop_len", 0) >= 10 ** 6 and is_trigger(sc["sims"][0]["type"], 1) and not any(s.get("via_parent") for s in sc["sims"]):
+        # loop family, never-settling variant: every member emits its event (with or without a payload) in every sub-step, so once
+        # the loop head has stepped only the guard can end the run
+        k = next((j for j, c in enumerate(sc["connects"]) if c["weak"]), None)
+        real_loop = k is not None and all(is_trigger(sc["sims"][c["dst"]]["type"], c["dattr"]) for c in sc["connects"][:k + 1])
+        started = any(e[0] == "got" and sid_i(e[1]) == 0 for e in controller.full_trace)
+        if real_loop and started and outcome == "finished":
+            vio.append({"law": "a same-time loop that never settles must be stopped with a SimulationError (run() returned normally)",
+                        "max_loop": ml, "outcome": outcome})
     return vio
 
 
